@@ -1,6 +1,6 @@
 // hx-runner drives the real duty runners of protocol/v2/ssv/runner (C05, C03).
 //
-//	hx-runner post-exh   [-roles a,b]                       C05: n=4, all orders x corruption kinds x corrupted sender
+//	hx-runner post-exh   [-roles a,b] [-part i -parts k]    C05: n=4, all orders x corruption kinds x corrupted sender
 //	hx-runner post-rnd   -seed S -n N [-roles ..] [-sizes 4,7,10,13]   C05: <= f corrupted senders, random orders
 //	hx-runner post-free  -seed S -n N [-roles ..] [-sizes ..]          C05: unrestricted traffic
 //	hx-runner runner     -seed S -n N [-roles ..]           C03: histories derived from honest 4-node runs
@@ -91,6 +91,8 @@ func main() {
 	n := fs.Int("n", 100, "cases")
 	rolesF := fs.String("roles", "", "comma separated role names")
 	sizesF := fs.String("sizes", "4,7,10,13", "committee sizes")
+	part := fs.Int("part", 0, "post-exh: which slice of the arrival orders")
+	parts := fs.Int("parts", 1, "post-exh: number of slices")
 	_ = fs.Parse(os.Args[2:])
 	out := hx.NewOut()
 	defer out.Close()
@@ -105,7 +107,7 @@ func main() {
 		if len(roles) == 0 {
 			roles = allPost
 		}
-		postExhaustive(out, roles)
+		postExhaustive(out, roles, *part, *parts)
 	case "post-rnd":
 		if len(roles) == 0 {
 			roles = allPost
